@@ -292,6 +292,8 @@ func Gen(o GenOpts) *rapid.Generator[Script] {
 				s.Ops = append(s.Ops, Op{K: "T", N: rapid.IntRange(1, 60).Draw(t, "tn")})
 			default:
 				switch {
+				case o.AddRemove && s.Ver == 1 && !s.Simple && rapid.IntRange(0, 4).Draw(t, "axg") == 0:
+					s.Ops = append(s.Ops, Op{K: "G"}) // GracefulStop early or in the middle, also in add/remove scripts
 				case o.AddRemove && s.Ver == 1 && !s.Simple:
 					if rapid.Bool().Draw(t, "ax") {
 						s.Ops = append(s.Ops, Op{K: "A", P: anyP("ap"), N: pick(t, "acap", 0, 1, 2, 8), M: pick(t, "apre", 0, 1, 3, h)})
